@@ -196,6 +196,15 @@ class GhostFile:
         from .core import wrap
         self.pos = wrap(term(self.pos) + n)
 
+    def write(self, text):
+        """text written to a file opened in text mode: recorded piece by piece (strings with symbolic parts are kept as their constructor terms)"""
+        if self.closed:
+            from .interp import PyRaise
+            raise PyRaise(ValueError("I/O operation on closed file"))
+        if not hasattr(self, "texts"):
+            self.texts = []
+        self.texts.append(text)
+
     def seek(self, pos, whence=0):
         if whence != 0:
             raise Unsupported("seek with whence != 0")
